@@ -124,7 +124,8 @@ func zzC11Validate(spec string) {
 }
 
 func zzC11_Validate_T2() { zzC11Validate("2;Tasks=2;After=2") }
-func zzC11_Validate_T3() { zzC11Validate("3;Tasks=3;After=2") }
+func zzC11_Validate_T3()   { zzC11Validate("3;Tasks=3;After=2") }
+func zzC11_Validate_T3A1() { zzC11Validate("3;Tasks=3;After=1") }
 
 // RunPlan through the world: everything or nothing.
 func zzC11Run(spec string) {
